@@ -191,16 +191,37 @@ func ruleBRACKETS(c *Ctx, r *Report) {
 			r.bad(rule, "symbols|extra|"+k, c.pos(sym.Global.Pos()), fmt.Sprintf("unexpected symbol %q → %s in the lexer's symbol table", rune(atoi(k)), v))
 		}
 	}
-	tt := c.readTable(pkgLex, "terminalTokens")
-	if tt.Err != "" {
-		r.bad(rule, "terminalTokens", "-", tt.Err)
+	// terminal tokens: the exported predicate IsTerminal folded at every TokType constant (the table
+	// behind it, if any, is an implementation detail)
+	isTerm := c.pkgFunc(pkgLex, "IsTerminal")
+	if isTerm == nil {
+		r.bad(rule, "IsTerminal", "-", "lex.IsTerminal not found")
 		return
 	}
-	ks := strings.Join(tt.keys(), ",")
-	if ks == "lex.TEOF,lex.TErr,lex.TLiteral,lex.TQuoted,lex.TRegexp" {
-		r.ok(rule, "terminalTokens", c.pos(tt.Global.Pos()), ks)
+	toks := c.tokTypeConsts()
+	var domain []int64
+	byVal := map[int64]string{}
+	for n, v := range toks {
+		domain = append(domain, v)
+		byVal[v] = n
+	}
+	leaves, table, why := c.decisionTable(isTerm, []string{"$0"}, domain)
+	if why != "" || len(leaves) != 1 {
+		r.bad(rule, "IsTerminal|extract", c.pos(isTerm.Pos()), "IsTerminal is not a pure predicate on the token type: "+why)
+		return
+	}
+	var terms []string
+	for _, v := range domain {
+		if table[fmt.Sprint([]int64{v})] {
+			terms = append(terms, byVal[v])
+		}
+	}
+	sort.Strings(terms)
+	ks := strings.Join(terms, ",")
+	if ks == "TEOF,TErr,TLiteral,TQuoted,TRegexp" {
+		r.ok(rule, "terminalTokens", c.pos(isTerm.Pos()), ks)
 	} else {
-		r.bad(rule, "terminalTokens", c.pos(tt.Global.Pos()), "terminal token set must be {TErr,TLiteral,TQuoted,TRegexp,TEOF}; it is {"+ks+"}")
+		r.bad(rule, "terminalTokens", c.pos(isTerm.Pos()), "terminal token set must be {TErr,TLiteral,TQuoted,TRegexp,TEOF}; IsTerminal accepts {"+ks+"}")
 	}
 }
 
